@@ -315,6 +315,14 @@ func (c *Trait) NotifyDeleted(ctx context.Context, key []byte) {
 	}
 }
 
+// expirationsAdded enables deletion of expired entries in a cache with UnlimitedTTL,
+// it has to be called whenever entries receive expiration time in other way than TTL.
+func (c *Trait) expirationsAdded(cnt int) {
+	if cnt > 0 && c.Config.TimeToLive == UnlimitedTTL {
+		atomic.AddInt64(&c.expirationsSet, int64(cnt))
+	}
+}
+
 // NotifyExpiredAll collects logs and metrics.
 func (c *Trait) NotifyExpiredAll(ctx context.Context, start time.Time, cnt int) {
 	if c.Log.logImportant != nil {
